@@ -165,6 +165,19 @@ def thresholded(exact_in, t):
 
 
 def compare_real(chk, name, rec, ins, nu, purity, indist, exact_in, exact_out, tol=1e-9, threshold=None):
+    """exceptions raised below a lightworks frame are violations (the source / sampler failed on a legal configuration)"""
+    from ..common import library_raised
+    try:
+        return _compare_real(chk, name, rec, ins, nu, purity, indist, exact_in, exact_out, tol, threshold)
+    except Exception as e:  # noqa: BLE001
+        if not library_raised(e):
+            raise
+        return chk.violation("raised", "%s: %s: %s (input %s, brightness %s, purity %s, indistinguishability %s)" % (name, type(e).__name__, e, list(ins), nu, purity, indist),
+                             {"module": "LwSource", "config": name, "circuit": rec, "input": list(ins), "brightness": str(nu), "purity": str(purity), "indistinguishability": str(indist)},
+                             {"call": "Source/Sampler", "clause": "raised"})
+
+
+def _compare_real(chk, name, rec, ins, nu, purity, indist, exact_in, exact_out, tol=1e-9, threshold=None):
     import lightworks as lw
     from lightworks import emulator as emu
     c = build_real(rec)
